@@ -195,6 +195,14 @@ impl<'tcx> Ctx<'tcx> {
                             return J::obj(o);
                         }
                     }
+                    // unevaluated &[u8] const items (e.g. `const CONTEXT: &[u8] = b"..."`)
+                    let tenv = TypingEnv::post_analysis(tcx, did);
+                    if let Ok(val) = c.const_.eval(tcx, tenv, c.span) {
+                        if let Some(bytes) = val.try_get_slice_bytes_for_diagnostics(tcx) {
+                            o.push(("bytes", J::Str(String::from_utf8_lossy(bytes).to_string())));
+                            return J::obj(o);
+                        }
+                    }
                 }
             }
         }
